@@ -133,17 +133,6 @@ macro("in_group", ["c", "px", "py"], "ufb('in_group', c.a, c.b, c.mod, c.g[0], c
 macro("is_dlog", ["c", "d", "px", "py"], "(d - dlog(c, px, py)) % c.n == 0")
 
 
-@contract(f"{E}::EcCurve.PointSequence")
-class PointSequence:
-  frame_props = ["C10", "C11"]
-  params = {"base": "point", "n": "int"}
-  self_fields = CURVE_FIELDS
-  returns = "list[point]"
-  assumed = True
-  assumed_why = "group arithmetic: bounded tier bounded/c11.py point_sequence_and_table (exhaustive on small curves)"
-  ensures = ["len(result) == max(n, 0)", "forall(k, 0, len(result), wf_point(result[k]))"]
-
-
 @contract(f"{E}::EcCurve.BatchInverse")
 class BatchInverse:
   """Montgomery's trick, for every modulus and every list (congruence mode: the body is executed with `% self.mod`
@@ -165,8 +154,12 @@ class BatchInverse:
                      "invert(ufi('pp', len(values)), self.mod) * ufi('pp', len(values))))"),
              ("C11", "invert(ufi('pp', len(values)), self.mod) * ufi('pp', len(values)) == "
                      "1 + self.mod * invert_k(ufi('pp', len(values)), self.mod)")]
-  caller_ensures = ["len(result) == len(values)"]
-  loops = {0: dict(invariant=["len(res) == len(values)", ("C11", "product == ufi('pp', i)"),
+  # shape, for callers (proved in the value pass): one slot per input, None exactly for the falsy entries
+  NONE_IFF = "forall(k, 0, len(values), (result[k] is None) == (not values[k]))"
+  caller_ensures = ["len(result) == len(values)", NONE_IFF]
+  loops = {0: dict(invariant=["len(res) == len(values)",
+                              "forall(k, 0, len(values), (res[k] is None) == (not values[k] or k >= i))",
+                              ("C11", "product == ufi('pp', i)"),
                               ("C11", "forall(k, 0, i, implies(values[k], res[k] == ufi('pp', k)))"),
                               ("C11", "forall(k, 0, len(values), implies(not values[k] or k >= i, res[k] is None))")],
                    types={"res": "list[Optional[int]]", "product": "int"},
@@ -185,6 +178,7 @@ class BatchInverse:
                                      "res[c] * values[c] == pre_inverse * ufi('pp', c + 1), "
                                      "pre_inverse * ufi('pp', c + 1) == invert(product, self.mod) * product))")],
                    invariant=["len(res) == len(values)",
+                              "forall(k, 0, len(values), (res[k] is None) == (not values[k]))",
                               ("C11", "inverse * ufi('pp', i + 1) == invert(product, self.mod) * product"),
                               ("C11", "forall(k, 0, i + 1, implies(values[k], res[k] == ufi('pp', k)))"),
                               ("C11", "forall(k, i + 1, len(values), implies(values[k], res[k] * values[k] == "
